@@ -162,6 +162,24 @@ func Successors(root, sub *Node, emit Emit) {
 					p.Children = saved
 				})
 			}
+			// compound edit "a longer list": the first element of a list is replaced by k pairwise different copies
+			// of itself, in DESCENDING order of the changed leaf (so the list is neither sorted nor duplicate-free
+			// by accident). One deviation — "the list has k more entries" — and the only way to reach code that
+			// treats short and long lists differently (pairwise scan below a threshold, sort / map above it).
+			if i == 0 && listElement(n, p) && n.Count() <= 10 {
+				for _, k := range growSizes {
+					copies := growCopies(n, k)
+					if copies == nil {
+						break
+					}
+					nk = make([]*Node, 0, len(saved)+k)
+					nk = append(nk, copies...)
+					nk = append(nk, saved...)
+					p.Children = nk
+					out(fmt.Sprintf("gr%d", k))
+					p.Children = saved
+				}
+			}
 		}
 		saved := *n
 		// empty
@@ -321,4 +339,26 @@ func ApplyPath(enc []byte, path []string) ([]byte, error) {
 		cur = got
 	}
 	return cur, nil
+}
+
+var growSizes = []int{2, 4, 8}
+
+// growCopies returns k clones of n whose last primitive non-OID leaf ends in 'z', 'y', 'x' … (descending).
+func growCopies(n *Node, k int) []*Node {
+	var out []*Node
+	for j := 0; j < k; j++ {
+		cp := n.Clone()
+		var leaf *Node
+		cp.Walk(func(x, _ *Node, _ int) {
+			if !x.Constructed && !x.Wrapped && !(x.Class == 0 && x.Tag == 6) {
+				leaf = x
+			}
+		})
+		if leaf == nil {
+			return nil
+		}
+		leaf.Content = append(append([]byte(nil), leaf.Content...), byte('z'-j))
+		out = append(out, cp)
+	}
+	return out
 }
